@@ -10,6 +10,7 @@ import (
 	"path/filepath"
 	"runtime/debug"
 	"runtime/pprof"
+	"sort"
 	"strings"
 	"time"
 
@@ -54,6 +55,7 @@ type ck struct {
 	c        *core.Child
 	reported map[string]int // violations reported per known-class signature
 	evals    int64
+	kinds    map[string]int64
 	kitchen  []string
 }
 
@@ -95,6 +97,7 @@ func run(c *core.Child) {
 		c.AddExtra("child_seconds:"+w.name, time.Since(t0).Seconds())
 		c.AddExtra("evaluations:"+w.name, float64(k.evals-e0))
 	}
+	k.flushKinds()
 }
 
 // ---- evaluation of one input
@@ -125,6 +128,7 @@ func (k *ck) eval(src []byte, isValue bool, origin string) *analysis {
 	switch {
 	case a.refOK() && a.libOK:
 		c.Feature("both-accept")
+		k.kindCoverage(a)
 	case !a.refOK() && !a.libOK:
 		c.Feature("both-reject")
 	}
@@ -169,6 +173,45 @@ func (k *ck) eval(src []byte, isValue bool, origin string) *analysis {
 		c.Violation(m.sig, m.msg, merge(detail, map[string]interface{}{"mismatches": all, "lib_error": a.libErr, "in_d6_class": inD6Class(src), "also_known": v.sigs}))
 	}
 	return a
+}
+
+// kindCoverage counts the node kinds of the accepted trees (evidence:
+// which productions the accepted inputs exercised).
+func (k *ck) kindCoverage(a *analysis) {
+	var root nast.Node
+	if a.isValue {
+		root = a.refVal
+	} else if a.refDoc != nil {
+		root = a.refDoc
+	}
+	if root == nil {
+		return
+	}
+	if k.kinds == nil {
+		k.kinds = map[string]int64{}
+	}
+	var walk func(n nast.Node)
+	walk = func(n nast.Node) {
+		k.kinds[n.Kind()]++
+		if sv, ok := n.(*nast.StringValue); ok && sv.Block {
+			k.kinds["StringValue(block)"]++
+		}
+		for _, ch := range nast.Children(n) {
+			walk(ch)
+		}
+	}
+	walk(root)
+}
+
+func (k *ck) flushKinds() {
+	names := make([]string, 0, len(k.kinds))
+	for n := range k.kinds {
+		names = append(names, n)
+	}
+	sort.Strings(names)
+	for _, n := range names {
+		k.c.FeatureN("accepted-node:"+n, k.kinds[n])
+	}
 }
 
 func merge(a, b map[string]interface{}) map[string]interface{} {
